@@ -12,6 +12,12 @@ import time
 VERIF = os.path.dirname(os.path.dirname(os.path.dirname(os.path.abspath(__file__))))
 
 
+def EVDIR():
+    # the self-test points this at its scratch directory so that validating the
+    # checkers never overwrites the real evidence
+    return os.environ.get("VERIF_EVIDENCE_DIR") or os.path.join(VERIF, "evidence")
+
+
 class AnalysisError(Exception):
     """The analysis cannot give a verdict (anchor vanished, unsupported
     construct, instance floor not reached). Never reported as a violation."""
@@ -151,7 +157,7 @@ def finish(ctx, explanation, technique):
 
     replay_paths = []
     if new:
-        rdir = os.path.join(VERIF, "evidence", "replay")
+        rdir = os.path.join(EVDIR(), "replay")
         os.makedirs(rdir, exist_ok=True)
         for i, f in enumerate(new, 1):
             p = os.path.join(rdir, f"{ctx.prop}-{i}.json")
@@ -191,7 +197,7 @@ def finish(ctx, explanation, technique):
         "violations": len(new),
     }
     if not ctx.replay:
-        epath = os.path.join(VERIF, "evidence", f"{ctx.prop}.json")
+        epath = os.path.join(EVDIR(), f"{ctx.prop}.json")
         os.makedirs(os.path.dirname(epath), exist_ok=True)
         with open(epath, "w") as fh:
             json.dump(evidence, fh, indent=1, default=str)
